@@ -70,12 +70,17 @@ CHECKS = {
               "concurrently with one goroutine per leaf (compared at quiescence); the environment-side ParentAdapter subscription must see "
               "ERROR iff a critical leaf was ever in ERROR; metamorphic variant with permuted children and permuted arrival order. State.X / "
               "Status.X are enumerated exhaustively (pairs, triples, multisets <=4) against the fold. Non-trivial: tree with >=2 levels, both "
-              "criticalities and >=1 ERROR or status update. Distinct = distinct case digests."),
+              "criticalities and >=1 ERROR or status update. Distinct = distinct case digests. TestFoldLoaded: the same state fold on trees "
+              "produced by the real template processing (hook H4): 1-3 groups, each plain tasks, an iterator over task roles, over "
+              "aggregators or over an included sub-workflow (1-3 elements), optionally nested in one more aggregator and with a sibling task; "
+              "non-trivial there: an iterator and an ERROR update."),
         assumptions=["role trees are built by overlay hook H2 (yaml.Unmarshal into aggregatorRole + LinkChildrenToParents), as workflow.Load does before template processing",
                      "MIXED/PARTIAL/UNDEFINED are never injected at a leaf (the task manager never sends them)",
                      "goroutine interleavings of concurrent updates are sampled, not enumerated"],
-        quick=[R("^(TestAlgebraExhaustive|TestFoldFixed|TestCanary.*)$", 1, 1, 120), R("^TestFold$", 1200, 6, 300), R("^TestConcurrentSavedCase$", 1, 4, 300)],
-        thorough=[R("^(TestAlgebraExhaustive|TestFoldFixed|TestCanary.*)$", 1, 1, 120), R("^TestFold$", 12000, 12, 2400), R("^TestFold$", 1500, 2, 2400, race=True), R("^TestConcurrentSavedCase$", 1, 8, 2400)],
+        quick=[R("^(TestAlgebraExhaustive|TestFoldFixed|TestCanary.*)$", 1, 1, 120), R("^TestFold$", 1200, 6, 300), R("^TestConcurrentSavedCase$", 1, 4, 300),
+               R("^TestFoldLoadedFixed$", 1, 1, 120), R("^TestFoldLoaded$", 1500, 2, 300)],
+        thorough=[R("^(TestAlgebraExhaustive|TestFoldFixed|TestCanary.*)$", 1, 1, 120), R("^TestFold$", 12000, 12, 2400), R("^TestFold$", 1500, 2, 2400, race=True), R("^TestConcurrentSavedCase$", 1, 8, 2400),
+                  R("^TestFoldLoadedFixed$", 1, 1, 120), R("^TestFoldLoaded$", 40000, 4, 2400)],
         floors={"concurrent": ("TestFold", 0.15), "mixed-criticality": ("TestFold", 0.4)},
     ),
     "C16": dict(
